@@ -30,3 +30,97 @@ package fasthttp
 //@     requires[cookie-key-no-semicolon@C06] semifree(k, len(k))
 //@     requires[cookie-value-no-semicolon@C06] semifree(v, len(v))
 //@   end
+
+// The scanners cut a header at ';' bytes only: one call consumes everything up to and including the first ';'
+// (and one following space), so a header with n ';' bytes yields at most n+1 pairs.
+//@ func cookieScanner.nextRaw results r
+//@   property C06
+//@   ensures[empty] r == (old(len(s.b)) > 0)
+//@   ensures[advances] r ==> len(s.b) < old(len(s.b))
+//@   ensures[whole-when-no-semicolon] r && semifree(old(s.b), old(len(s.b))) ==> len(s.b) == 0
+//@   ensures[cut-at-first-semicolon] r ==> exists p in [0, old(len(s.b))]: semifree(old(s.b), p) && ((p == old(len(s.b)) && len(s.b) == 0) ||
+//@                       (p < old(len(s.b)) && old(s.b[p]) == ';' && (len(s.b) == old(len(s.b)) - p - 1 || len(s.b) == old(len(s.b)) - p - 2)))
+//@   ensures[rest-is-suffix] r ==> rgn(s.b) == rgn(old(s.b)) && off(s.b) + len(s.b) == off(old(s.b)) + old(len(s.b))
+//@   loop 1:
+//@     invariant[no-semicolon-so-far] semifree(b, _i)
+//@     invariant[value-start] 0 <= k && k <= _i
+
+// trimCookieArgNoCopy returns a window of its argument (no copy, no write).
+//@ func trimCookieArgNoCopy results r
+//@   property C06
+//@   pure
+//@   ensures[window] rgn(r) == rgn(old(src)) && off(old(src)) <= off(r) && off(r) + len(r) <= off(old(src)) + len(old(src))
+//@   loop 1:
+//@     invariant[window] rgn(src) == rgn(old(src)) && off(old(src)) <= off(src) && off(src) + len(src) == off(old(src)) + len(old(src))
+//@   loop 2:
+//@     invariant[window] rgn(src) == rgn(old(src)) && off(old(src)) <= off(src) && off(src) + len(src) <= off(old(src)) + len(old(src))
+
+// decodeCookieArg copies a window of src (spaces and one pair of quotes trimmed) into dst's storage.
+//@ func decodeCookieArg results r
+//@   property C06
+//@   modifies dst
+//@   ensures[grown] extends(r, dst[:0])
+//@   ensures[window-of-src] exists w in [0, len(old(src))]: w + len(r) <= len(old(src)) && forall j in [0,len(r)): r[j] == old(src[w+j])
+//@   loop 1:
+//@     invariant[window] rgn(src) == rgn(old(src)) && off(old(src)) <= off(src) && off(src) + len(src) == off(old(src)) + len(old(src))
+//@   loop 2:
+//@     invariant[window] rgn(src) == rgn(old(src)) && off(old(src)) <= off(src) && off(src) + len(src) <= off(old(src)) + len(old(src))
+
+//@ func cookieScanner.next results r
+//@   property C06
+//@   requires[own-buffers] rgn(deref(key)) != rgn(s.b) && rgn(deref(val)) != rgn(s.b)
+//@   ensures[empty] r == (old(len(s.b)) > 0)
+//@   ensures[advances] r ==> len(s.b) < old(len(s.b))
+//@   ensures[whole-when-no-semicolon] r && semifree(old(s.b), old(len(s.b))) ==> len(s.b) == 0
+//@   ensures[cut-at-first-semicolon] r ==> exists p in [0, old(len(s.b))]: semifree(old(s.b), p) && ((p == old(len(s.b)) && len(s.b) == 0) ||
+//@                       (p < old(len(s.b)) && old(s.b[p]) == ';' && (len(s.b) == old(len(s.b)) - p - 1 || len(s.b) == old(len(s.b)) - p - 2)))
+//@   ensures[rest-is-suffix] r ==> rgn(s.b) == rgn(old(s.b)) && off(s.b) + len(s.b) == off(old(s.b)) + old(len(s.b))
+//@   loop 1:
+//@     invariant[no-semicolon-so-far] semifree(b, _i)
+//@     invariant[value-start] 0 <= k && k <= _i
+//@     invariant[input-untouched] unchanged(s.b)
+//@     invariant[own-storage] reuses(deref(key), deref(key)) && reuses(deref(val), deref(val))
+
+//@ func validCookieValue results ok
+//@   property C06
+//@   pure
+//@   ensures[def] ok == forall j in [0,len(value)): value[j] != '"' && value[j] != ';' && value[j] != 92
+//@   loop 1:
+//@     invariant[so-far] forall j in [0,_i): value[j] != '"' && value[j] != ';' && value[j] != 92
+
+//@ func validCookiePathValue results ok
+//@   property C06
+//@   pure
+//@   ensures[no-semicolon] ok ==> semifree(value, len(value))
+//@   ensures[printable] ok ==> forall j in [0,len(value)): value[j] == 13 || value[j] == 10 || (32 <= value[j] && value[j] < 127)
+//@   loop 1:
+//@     invariant[so-far] forall j in [0,_i): value[j] != ';' && (value[j] == 13 || value[j] == 10 || (32 <= value[j] && value[j] < 127))
+
+// Serialisation. A ';' in the output of Cookie.AppendBytes is always one of the "; " attribute separators the
+// function itself writes: given the type invariant (no ';' in key, value, domain, path) nothing else can contribute one.
+//@ spec sepsOnly(b []byte, lo int, hi int) bool = forall j in [lo,hi): b[j] == ';' ==> j + 1 < hi && b[j+1] == ' '
+
+//@ func AppendUint results r
+//@   trusted
+//@   modifies dst
+//@   requires[non-negative] n >= 0
+//@   ensures extends(r, dst) && len(r) > len(dst) && forall j in [len(dst), len(r)): isdigit(r[j])
+//@ func AppendHTTPDate results r
+//@   trusted
+//@   modifies dst
+//@   ensures extends(r, dst) && forall j in [len(dst), len(r)): r[j] != ';' && r[j] != 13 && r[j] != 10
+
+//@ func appendCookiePart results r
+//@   property C06
+//@   modifies dst
+//@   requires[clean] semifree(key, len(key)) && semifree(value, len(value))
+//@   ensures[grown] extends(r, dst)
+//@   ensures[one-separator] len(r) == len(dst) + 3 + len(key) + len(value) && r[len(dst)] == ';' && r[len(dst)+1] == ' ' && forall j in [len(dst)+2, len(r)): r[j] != ';'
+
+//@ func Cookie.AppendBytes results r
+//@   property C06
+//@   modifies dst, c.bufV
+//@   maintain[grown] extends(dst, old(dst))
+//@   maintain[seps] sepsOnly(dst, len(old(dst)), len(dst))
+//@   ensures[grown] extends(r, old(dst))
+//@   ensures[separators-only] sepsOnly(r, len(old(dst)), len(r))
